@@ -358,7 +358,7 @@ def check(run):
     ctrace = os.path.join(run.work, "codec.ndjson")
     rtrace = os.path.join(run.work, "resp.ndjson")
     cargs = ["codec", "-in", cases, "-out", ctrace] + (
-        ["-large", 65536, "-seeded", 48, "-patterns", 1] if quick else ["-large", 1048576, "-seeded", 400, "-patterns", 6])
+        ["-large", 65536, "-seeded", 48, "-patterns", 1] if quick else ["-large", 262144, "-seeded", 200, "-patterns", 4])
     add(must(run, binary, cargs, timeout=1500))
     add(must(run, binary, ["resp", "-out", rtrace]))
     ok = validate(run, [("codec", rtrace, None), ("codec", ctrace, None)], "codec", known)
@@ -404,15 +404,16 @@ def check(run):
     lap("sequential_replay")
 
     # (4) dispatcher, 2-3 goroutines: steered through the callbacks, then free with seeded yields --------
-    cb = gen(run, "gen_p2", 60 * n, 900, 2, 4, "small", 4) + gen(run, "gen_p3", 60 * n, 900, 3, 3, "small", 5) + \
-        gen(run, "gen_p3b", 30 * n, 900, 3, 2, "mc3", 6)
+    nc = 1 if quick else 3
+    cb = gen(run, "gen_p2", 60 * nc, 900, 2, 4, "small", 4) + gen(run, "gen_p3", 60 * nc, 900, 3, 3, "small", 5) + \
+        gen(run, "gen_p3b", 30 * nc, 900, 3, 2, "mc3", 6)
     st, gtrace, gs = conc_round(run, binary, cb, "gated", 1, "gated")
     tot["gated_rounds"] = st.get("rounds", 0)
     tot["gated_overlapping_calls"] = st.get("overlapping_calls", 0)
     tot["gated_lagging_steps"] = st.get("lagging_steps", 0)
     tot["gated_sched_steps"] = st.get("sched_steps", 0)
     tot["conc_deliveries"] = st.get("deliveries", 0)
-    st, ftrace, fsens = conc_round(run, binary, cb, "free", 1 if quick else 3, "free")
+    st, ftrace, fsens = conc_round(run, binary, cb, "free", 1 if quick else 2, "free")
     tot["free_rounds"] = st.get("rounds", 0)
     tot["free_overlapping_calls"] = st.get("overlapping_calls", 0)
     tot["conc_deliveries"] += st.get("deliveries", 0)
@@ -433,7 +434,7 @@ def check(run):
         if rb is None:
             run.assumptions.append("race detector not available in this environment: sensor skipped")
         else:
-            sub = cb[:40] if quick else cb[:400]
+            sub = cb[:40] if quick else cb[:240]
             for mode in (("gated",) if quick else ("gated", "free")):
                 st, t, sens = conc_round(run, rb, sub, mode, 1, "race_" + mode,
                                          race_log=os.path.join(run.sub("racelog"), "r"))
